@@ -251,13 +251,19 @@ def rule_lossless_writers(chk, rid):
         if not (exts & LOSSLESS_FRAME):
             continue
         for st in br.body:
-            for c in calls_in(st):
-                if (call_tail(c) or "").startswith("to_"):
+            called = set()
+            for c in ast.walk(st):       # ast.walk: also inside a lambda handed to a helper
+                if isinstance(c, ast.Call) and (call_tail(c) or "").startswith("to_"):
+                    called.add(id(c.func))
                     n += 1
                     bad = [k.arg for k in c.keywords if k.arg in DROPPING and isinstance(k.value, ast.Constant) and k.value.value == DROPPING[k.arg]]
                     chk.ob(rid, f"{ci.qual}.as_bytes", not bad, f"`{U(c)[:60]}` keeps the whole frame" if not bad else
                            f"`{U(c)[:60]}` drops {bad} in a format the property counts as lossless ({sorted(exts)}): row labels are lost on the round trip",
                            c, mod, key=f"writer:{sorted(exts)[0]}")
+            for a in ast.walk(st):       # a bound writer passed along uncalled (`helper(data.to_feather)`): no options at all
+                if isinstance(a, ast.Attribute) and a.attr.startswith("to_") and id(a) not in called and isinstance(a.ctx, ast.Load):
+                    n += 1
+                    chk.ob(rid, f"{ci.qual}.as_bytes", True, f"`{U(a)}` is handed on without options", a, mod, key=f"writer:{sorted(exts)[0]}")
     chk.floor(rid, n, 3, "lossless frame writers")
 
 
